@@ -470,16 +470,27 @@ class Master(loader.Loader):
                 _LOGGER.info('Unscheduling: %s - %s', servername, app)
                 self.backend.delete(os.path.join(placement_node, app))
 
+        # As in reschedule, run two loops: remove all stale records before
+        # creating any new ones, so that an interruption never leaves an app
+        # with records under two servers.
+        stored = dict()
         for servername, server in members.items():
             placement_node = z.path.placement(servername)
             self.backend.ensure_exists(placement_node)
 
             current = set(self.backend.list(placement_node))
             correct = set(server.apps.keys())
+            stored[servername] = current
 
             for app in current - correct:
                 _LOGGER.info('Unscheduling: %s - %s', servername, app)
                 self.backend.delete(os.path.join(placement_node, app))
+
+        for servername, server in members.items():
+            placement_node = z.path.placement(servername)
+            current = stored[servername]
+            correct = set(server.apps.keys())
+
             for app in (correct - current) | (correct & changed):
                 _LOGGER.info('Scheduling: %s - %s,%s',
                              servername, app, self.cell.apps[app].identity)
